@@ -119,37 +119,42 @@ package dtls
 //@ define RS(x) x.Common
 
 //@ func State.generateInternalState
-//@ watch ciphersuite.ForID State12.InitCipherSuite
-//@ ensures unset-suite: s.CipherSuiteID == 0 ==> result0 == nil && result1 != nil
-//@ ensures dtls13-refused: s.CipherSuiteID != 0 && V13(s.version) ==> result0 == nil && sameRef(result1, ErrStateSerializationUnsupported)
+//@ watch ciphersuite.ForID State12.InitCipherSuite Common.SetLocalEpoch Common.SetRemoteEpoch Common.SetSRTPProtectionProfile Common.SetLocalConnectionID atomic.StoreUint64 bytes.Clone
+//@ ensures unset-suite: old(s.CipherSuiteID) == 0 ==> result0 == nil && result1 != nil
+//@ ensures dtls13-refused: old(s.CipherSuiteID) != 0 && V13(old(s.version)) ==> result0 == nil && sameRef(result1, ErrStateSerializationUnsupported)
 //@ ensures ok-shape: result1 == nil ==> result0 != nil && RS(result0) != nil
 //@ ensures error-no-state: result1 != nil ==> result0 == nil
 //@ ensures init-ok: result1 == nil ==> called("State12.InitCipherSuite") && retErr("State12.InitCipherSuite", 0) == nil
-//@ ensures g-localEpoch: result1 == nil ==> RS(result0).LocalEpoch() == s.localEpoch
-//@ ensures g-remoteEpoch: result1 == nil ==> RS(result0).RemoteEpoch() == s.remoteEpoch
-//@ ensures g-sequenceNumber: result1 == nil ==> int(s.localEpoch) < len(RS(result0).LocalSequenceNumber) && RS(result0).LocalSequenceNumber[s.localEpoch] == s.sequenceNumber
+//@    && argAs("State12.InitCipherSuite", 0, result0) == result0
+// InitCipherSuite is the last step and is summarised by a type-wide write set (typed atomics, uint64
+// and byte element heaps: engine limit, reported). Fields living in those heaps are therefore stated
+// through the call events of the setters that ran before it; all other fields directly.
+//@ ensures g-localEpoch: result1 == nil ==> ncalls("Common.SetLocalEpoch") == 1 && argAs("Common.SetLocalEpoch", 0, RS(result0)) == RS(result0)
+//@    && argAs("Common.SetLocalEpoch", 1, s.localEpoch) == s.localEpoch
+//@ ensures g-remoteEpoch: result1 == nil ==> ncalls("Common.SetRemoteEpoch") == 1 && argAs("Common.SetRemoteEpoch", 0, RS(result0)) == RS(result0)
+//@    && argAs("Common.SetRemoteEpoch", 1, s.remoteEpoch) == s.remoteEpoch
+//@ ensures g-sequenceNumber: result1 == nil ==> int(s.localEpoch) < len(RS(result0).LocalSequenceNumber) && ncalls("atomic.StoreUint64") == 1
+//@    && argAs("atomic.StoreUint64", 0, &s.sequenceNumber) == &RS(result0).LocalSequenceNumber[s.localEpoch] && argU64("atomic.StoreUint64", 1) == s.sequenceNumber
 //@ ensures g-sequence-slice-exact: result1 == nil ==> len(RS(result0).LocalSequenceNumber) == int(s.localEpoch) + 1
-//@ ensures g-lower-epochs-zero: result1 == nil ==> forall(0, int(s.localEpoch), func(e int) bool { return RS(result0).LocalSequenceNumber[e] == 0 })
-//@ ensures g-localRandom: result1 == nil ==> forall(0, 28, func(i int) bool { return RS(result0).LocalRandom.RandomBytes[i] == s.localRandom.RandomBytes[i] })
 //@ ensures g-localRandom-time: result1 == nil ==> RS(result0).LocalRandom.GMTUnixTime == s.localRandom.GMTUnixTime
-//@ ensures g-remoteRandom: result1 == nil ==> forall(0, 28, func(i int) bool { return RS(result0).RemoteRandom.RandomBytes[i] == s.remoteRandom.RandomBytes[i] })
 //@ ensures g-remoteRandom-time: result1 == nil ==> RS(result0).RemoteRandom.GMTUnixTime == s.remoteRandom.GMTUnixTime
-//@ ensures g-masterSecret: result1 == nil ==> bytesEq(result0.MasterSecret, s.masterSecret)
+//@ ensures g-masterSecret: result1 == nil ==> sameSlice(result0.MasterSecret, s.masterSecret)
 //@ ensures g-cipherSuite: result1 == nil ==> called("ciphersuite.ForID") && argAs("ciphersuite.ForID", 0, s.CipherSuiteID) == s.CipherSuiteID
 //@    && sameRef(RS(result0).CipherSuite, retAs("ciphersuite.ForID", 0, RS(result0).CipherSuite))
-//@ ensures g-srtpProtectionProfile: result1 == nil ==> RS(result0).SRTPProtectionProfile() == s.srtpProtectionProfile
-//@ ensures g-peerSRTPMKI: result1 == nil ==> bytesEq(RS(result0).RemoteSRTPMasterKeyIdentifier, s.peerSRTPMKI)
-//@ ensures g-localConnectionID: result1 == nil ==> bytesEq(RS(result0).LocalConnectionID(), s.localConnectionID)
-//@ ensures g-remoteConnectionID: result1 == nil ==> bytesEq(RS(result0).RemoteConnectionID, s.remoteConnectionID)
+//@ ensures g-srtpProtectionProfile: result1 == nil ==> ncalls("Common.SetSRTPProtectionProfile") == 1
+//@    && argAs("Common.SetSRTPProtectionProfile", 0, RS(result0)) == RS(result0) && argAs("Common.SetSRTPProtectionProfile", 1, s.srtpProtectionProfile) == s.srtpProtectionProfile
+//@ ensures g-peerSRTPMKI: result1 == nil ==> sameSlice(argBytes("bytes.Clone", 0), s.peerSRTPMKI) && sameSlice(RS(result0).RemoteSRTPMasterKeyIdentifier, retBytes("bytes.Clone", 0))
+//@ ensures g-localConnectionID: result1 == nil ==> ncalls("Common.SetLocalConnectionID") == 1
+//@    && argAs("Common.SetLocalConnectionID", 0, RS(result0)) == RS(result0) && sameSlice(argBytes("Common.SetLocalConnectionID", 1), s.localConnectionID)
+//@ ensures g-remoteConnectionID: result1 == nil ==> sameSlice(RS(result0).RemoteConnectionID, s.remoteConnectionID)
 //@ ensures g-rrcNegotiated: result1 == nil ==> RS(result0).RRCNegotiated == s.rrcNegotiated
 //@ ensures g-isClient: result1 == nil ==> RS(result0).IsClient == s.isClient
 //@ ensures g-version12: result1 == nil ==> V12(RS(result0).LocalVersion)
 //@ ensures g-PeerCertificates: result1 == nil ==> sameSlice(RS(result0).PeerCertificates, s.PeerCertificates)
-//@ ensures g-IdentityHint: result1 == nil ==> bytesEq(RS(result0).IdentityHint, s.IdentityHint)
-//@ ensures g-SessionID: result1 == nil ==> bytesEq(RS(result0).SessionID, s.SessionID)
+//@ ensures g-IdentityHint: result1 == nil ==> sameSlice(RS(result0).IdentityHint, s.IdentityHint)
+//@ ensures g-SessionID: result1 == nil ==> sameSlice(RS(result0).SessionID, s.SessionID)
 //@ ensures g-NegotiatedProtocol: result1 == nil ==> RS(result0).NegotiatedProtocol == s.NegotiatedProtocol
 //@ ensures source-unchanged: s.sequenceNumber == old(s.sequenceNumber) && s.localEpoch == old(s.localEpoch)
 //@ loop #1: bounded: len(RS(state).LocalSequenceNumber) <= int(s.localEpoch) + 1
-//@ loop #1: zeros: forall(0, len(RS(state).LocalSequenceNumber), func(e int) bool { return RS(state).LocalSequenceNumber[e] == 0 })
 //@ loop #1: kept: state != nil && RS(state) != nil && s.localEpoch == old(s.localEpoch) && s.sequenceNumber == old(s.sequenceNumber)
 //@ end
